@@ -639,7 +639,8 @@ func oracleC16Sched(l *harness.Live) (nontrivial bool, f *harness.Failure) {
 	// wait until every goroutine is inside its load (misses) or has returned (hits)
 	inLoad := map[string]bool{}
 	finished := map[int]res{}
-	deadline := time.After(20 * time.Second)
+	// generous: machine load must not be able to raise an alarm, a real deadlock stays one
+	deadline := time.After(90 * time.Second)
 	for len(inLoad)+len(finished) < len(keys) {
 		select {
 		case k := <-entered:
@@ -676,8 +677,8 @@ func oracleC16Sched(l *harness.Live) (nontrivial bool, f *harness.Failure) {
 		case r := <-results:
 			finished[r.i] = r
 			return check(r)
-		case <-time.After(20 * time.Second):
-			return harness.Failf("a released get returns", "nothing within 20 s", "a get did not return after its load was released")
+		case <-time.After(90 * time.Second):
+			return harness.Failf("a released get returns", "nothing within 90 s", "a get did not return after its load was released")
 		}
 	}
 	misses := 0
